@@ -130,7 +130,8 @@ def design_legs(ctx, quick):
     """Exhaustive TLC runs of the model (invariants, deadlock freedom, termination under weak fairness) and its negative controls."""
     for cfg in (QUICK if quick else THOROUGH):
         model.mc(MC, consts_of(cfg), ctx, "FunctorMap_%s_%s_w%d_p%d" % (cfg[0], cfg[2], cfg[1], cfg[4]), invariants=INVS,
-                 properties=["Termination"], view=None, deadlock=True, workers=8, timeout=1200)
+                 properties=["Termination"], view=None, deadlock=True, workers=8, timeout=1200, coverage=True)
+    model.coverage_summary(ctx)
     model.mc(MC, consts_of(("mulpmap", 2, "K3", 2, 1), "joinfirst"), ctx, "FunctorMap_neg_joinfirst", invariants=INVS, view=None,
              deadlock=True, workers=8, expect_violation=True)
     model.mc(MC, consts_of(("functormap", 2, "K21", 2, 0), "sharedbuf"), ctx, "FunctorMap_neg_sharedbuf", invariants=INVS, view=None,
